@@ -28,6 +28,9 @@ Record site_env := {
 
 Definition e_paths (e : site_env) : list bytes := map snd (e_ingresses e).
 
+(* Ingresses.MatchingPath for a request path, in the variant of the code the configuration names *)
+Definition e_mp (e : site_env) (req : bytes) : bytes := matching_path (cf_seg_prefix (e_cfg e)) (e_paths e) req.
+
 Definition origin_of (e : site_env) (path : bytes) : origin :=
   {| u_https := e_https e; u_host := e_host e; u_path := path |}.
 
@@ -39,12 +42,12 @@ Definition build_request (e : site_env) (b : browser) (q : breq) (f : cfault) : 
   let u := origin_of e (q_path q) in
   let ck := fun k => jar_cookie (e_trust e) (b_now b) u (b_jar b) (cookie_name (e_cfg e) k) in
   {| r_ep := q_ep q;
-     r_mp := matching_path (e_paths e) (q_path q);
+     r_mp := e_mp e (q_path q);
      r_retry := lit_of (ck CkRetry);
      r_logincount := lit_of (ck CkLoginCount);
      r_has_session := b_session b && match ck CkSession with Some _ => true | None => false end;
      r_has_login := match ck CkLogin with Some _ => true | None => false end;
-     r_ingress_ok := matching_ingress (e_ingresses e) (e_hostport e) (matching_path (e_paths e) (q_path q));
+     r_ingress_ok := matching_ingress (e_ingresses e) (e_hostport e) (e_mp e (q_path q));
      r_prompt := q_prompt q;
      r_fault := f |}.
 
@@ -75,7 +78,7 @@ Definition sleep (b : browser) (dt : Z) : browser :=
 (* ------------------------------------------------------------------ error.go Retry: where the 307 points *)
 
 Definition retry_target (e : site_env) (q : breq) : breq :=
-  let mp := matching_path (e_paths e) (q_path q) in
+  let mp := e_mp e (q_path q) in
   match q_ep q with
   | EpLogoutCallback => {| q_ep := EpLogout; q_path := mp ++ path_oauth2 ++ path_logout; q_prompt := false |}
   | EpCallback => {| q_ep := EpLogin; q_path := mp ++ path_oauth2 ++ path_login; q_prompt := false |}
@@ -84,7 +87,7 @@ Definition retry_target (e : site_env) (q : breq) : breq :=
 
 (* after a successful login start the provider sends the browser to the callback of the matching ingress *)
 Definition callback_of (e : site_env) (q : breq) : breq :=
-  let mp := matching_path (e_paths e) (q_path q) in
+  let mp := e_mp e (q_path q) in
   {| q_ep := EpCallback; q_path := mp ++ path_oauth2 ++ path_callback; q_prompt := false |}.
 
 (* The browser follows 307 auto-retries (and, when [via_idp], the login -> provider -> callback round trip);
